@@ -199,7 +199,7 @@ def stepWords (ws : List String) : Option Parsed := do
       | none => []
       | some ex =>
         if ex.rollup then usedOf (validateAllRequiredPartiesSigned env mt ex.owners ex.owners roles signers)
-        else if ex != proposed then usedOf (validateAllRequiredSigned env mt (getPartyAddresses ex.owners) signers)
+        else if !ex.equals proposed then usedOf (validateAllRequiredSigned env mt (getPartyAddresses ex.owners) signers)
         else []
     let c := Clauses.ofReq env mt signers used (Spec.writeScopeReq existing proposed roles)
     let pv := Spec.provenanceRoleOk env proposed.owners
